@@ -54,6 +54,7 @@ def run(ctx):
     r316(ctx, core, comp)
     from . import c01 as _c01
     _c01.r110(ctx, 'R3.12')
+    _c01.r126(ctx, 'R3.26')
     m = ctx.repo['cencoding']
     # R3.4: only the decoders matter for reading foreign files
     saved = c11.LOOPS
@@ -161,6 +162,27 @@ def r32(ctx, core):
     ok = len(chain) == 1 and norm(chain[0].test) == 'coding == parquet_thrift.Encoding.RLE' and _chain_ends_in_raise(chain[0])
     ctx.ob('R3.2', 'core.read_data:only-RLE-accepted-everything-else-raises', ok,
            'dispatch `%s` must end in a raise' % (norm(chain[0].test) if chain else '?'), core.loc(rd))
+    # ... and RLE is the only coding with an arm: the deprecated BIT_PACKED layout packs from the most significant bit,
+    # the package's only fixed-width helpers (read_bitpacked1 / read_bitpacked) pack from the least significant one
+    arms = []
+    x = chain[0] if chain else None
+    while isinstance(x, ast.If):
+        arms.append(x)
+        x = x.orelse[0] if len(x.orelse) == 1 and isinstance(x.orelse[0], ast.If) else None
+    extra = [norm(a_.test) for a_ in arms[1:] if not all(isinstance(st, ast.Raise) for st in a_.body)]
+    ctx.ob('R3.2', 'core.read_data:no-decoding-arm-for-a-coding-without-a-decoder', not extra,
+           'arms besides RLE that decode instead of refusing: %s' % extra, core.loc(rd))
+    # scattering decoded values by a null mask is an indexed assignment (values taken by rank among the selected
+    # positions); np.putmask takes them by position and repeats them
+    for mn in ('core', 'converted_types', 'encoding'):
+        m_ = ctx.repo[mn]
+        for q_, g_ in m_.funcs.items():
+            for c_ in walk_no_nested(g_):
+                if isinstance(c_, ast.Call) and (callee(c_) or '').split('.')[-1] == 'putmask' and len(c_.args) >= 3 \
+                        and not isinstance(c_.args[2], ast.Constant):
+                    ctx.ob('R3.13', '%s.%s:values-scattered-by-rank-not-by-position' % (mn, q_), False,
+                           '`%s`: putmask(a, mask, values) uses values[i] for position i; the decoded values are as many as the '
+                           'mask has true entries' % norm(c_)[:80], m_.loc(c_))
 
 
 def r33(ctx, core, api):
@@ -358,8 +380,8 @@ def r311(ctx, core, rule='R3.11'):
         d = norm(st)
         tests = [(norm(e.test), fld) for e, fld in cfg.enclosing_tests(st) if isinstance(e, ast.If)]
         # allowed guards: the block that decoded the levels, and the non-repeated arm
-        inner = [t for t in tests if 'max_rep' in t[0]]
-        other = [t for t in tests if 'max_rep' not in t[0] and 'num_nulls' not in t[0]]
+        inner = [t for t in tests if t[0] == 'max_rep']
+        other = [t for t in tests if t[0] != 'max_rep' and 'num_nulls' not in t[0]]
         ok = cfg.exists_path(cfg.node_of(alias[0]), cfg.node_of(st)) and not other and all(t == ('max_rep', 'orelse') for t in inner)
         d += ' under %s' % tests
     ctx.ob(rule, 'core.read_data_page_v2:levels-in-the-output-mask-converted-in-place', ok, d, core.loc(alias[0]))
